@@ -147,10 +147,8 @@ class X12Base(object):
                     while self.hl_stack and hl_parent != self.hl_stack[-1]:
                         del self.hl_stack[-1]
             else:
-                if len(self.hl_stack) != 0:
-                    pass
-                    #err_str = 'HL parent is blank, but stack not empty'
-                    #self._seg_error('HL2', err_str)
+                # a new top level: the levels under the earlier ones are closed
+                self.hl_stack = []
             self.hl_stack.append(self.hl_count)
         elif self.check_837_lx and seg_id == 'CLM':
             self.lx_count = 0
